@@ -38,6 +38,8 @@ type Check struct {
 	// Race: the worker binary is built with -race and race-detector reports are
 	// collected from the GORACE log.
 	Race bool
+	// FreshProcess runs every case in a process of its own.
+	FreshProcess bool
 	// Workers overrides the number of worker processes (0 = default).
 	Workers int
 	// MinNontrivial: a run that observed fewer distinct non-trivial cases is
